@@ -1061,20 +1061,20 @@ class SSHProcess(SSHStreamSession, Generic[AnyStr]):
         """Handle a close of the SSH channel"""
 
         readers = list(self._readers.values())
-        writers = list(self._writers.values())
 
-        # Forget the redirects first so that drain() waiters woken up
+        # Forget the input redirects first so that drain() waiters woken up
         # below see the channel as gone rather than as still redirected
         self._readers = {}
-        self._writers = {}
 
         super().connection_lost(exc) # type: ignore
 
         for reader in readers:
             reader.close()
 
-        for writer in writers:
+        for writer in list(self._writers.values()):
             writer.close()
+
+        self._writers = {}
 
     def data_received(self, data: AnyStr, datatype: DataType) -> None:
         """Handle incoming data from the SSH channel"""
